@@ -3,6 +3,7 @@ package c19
 import (
 	"fmt"
 	"sort"
+	"strings"
 
 	"verifharness/lib"
 )
@@ -211,7 +212,11 @@ func genOps(rng *lib.RNG, fs flowSpec, nsess, maxWrites, depth int) []op {
 		switch {
 		case canWrite && (len(ready)+len(held) == 0 || rng.Chance(2, 5)):
 			o := op{kind: 'w', sess: si, node: lib.Pick(rng, free), v: rng.Range(0, 9)}
-			w := s.ip.write(o.node, o.v)
+			v := o.v
+			if rng.Chance(1, 6) { // the request is the packet.None singleton itself
+				o.v, v = noneReq, 0
+			}
+			w := s.ip.write(o.node, v)
 			if !s.ip.writes[w].done() {
 				s.counted[w] = true
 				s.inflight[o.node]++
@@ -227,7 +232,13 @@ func genOps(rng *lib.RNG, fs flowSpec, nsess, maxWrites, depth int) []op {
 			w := s.pending[k][0]
 			s.pending[k] = s.pending[k][1:]
 			s.ip.writes[w].outstanding--
-			ops = append(ops, op{kind: 'a', sess: si, node: k})
+			ak := byte('a')
+			// the sink answers with the packet.None singleton – not where two branches meet at the sink:
+			// which of the two requests would get it depends on which branch arrived first
+			if rng.Chance(1, 4) && !strings.HasPrefix(fs.name, "diamond") {
+				ak = 'n'
+			}
+			ops = append(ops, op{kind: ak, sess: si, node: k})
 			if len(s.pending[k]) == 0 && rng.Chance(1, 4) {
 				// the sink answers once more although nothing is pending (refused, no answer)
 				ops = append(ops, op{kind: 'd', sess: si, node: k})
@@ -244,6 +255,16 @@ func genOps(rng *lib.RNG, fs flowSpec, nsess, maxWrites, depth int) []op {
 // a process has exited.
 func insertReloads(rng *lib.RNG, fs flowSpec, nsess int, ops []op) []op {
 	out := append([]op(nil), ops...)
+	for i := range out {
+		// no packet.None singleton here: frames recorded twice (a symbol loaded twice) are recognised
+		// as adjacent equal frames, which two requests both made of and answered with None would be too
+		if out[i].kind == 'n' {
+			out[i].kind = 'a'
+		}
+		if out[i].kind == 'w' && out[i].v == noneReq {
+			out[i].v = 0
+		}
+	}
 	for k := rng.Range(1, 3); k > 0; k-- {
 		pos := rng.Intn(len(out) + 1)
 		if rng.Chance(1, 4) {
